@@ -1,7 +1,7 @@
 """R-LIVE (liveness predicate on accessor entries) and R-ALPHA (alphabet literals)."""
 import ast
 
-from ..core import walk_term, show, AnalysisError
+from ..core import is_call, walk_term, show, AnalysisError
 from ..finite import UNKNOWN
 
 LIVE_FORM = (False, True, True)
@@ -65,6 +65,26 @@ def r_live(ctx, fqs, floor=0, what=''):
                            "liveness predicate %s has table %s on entries (-1, 0, positive); required (False, True, True)"
                            % (show(pred), tab), extracted=ext, expected='-1:False 0:True +:True',
                            inputs='; '.join(why) or 'graphs with arcs into vertex 0')
+    # truthiness of vertex numbers: any(entries) / all(entries) / bool(entry) treats vertex 0 as "nothing" and -1 as "something"
+    K = ctx.kinds
+    for fq in sorted(fqs):
+        f = ctx.p.func(fq)
+        seen = set()
+        for nd, s_ in ctx.all_subterms(f):
+            if is_call(s_, 'builtins.any', 'builtins.all', 'numpy.any', 'numpy.all') and len(s_[2]) == 1 and s_ not in seen:
+                a = s_[2][0]
+                while a[0] == 'call' and a[1][0] == 'attr' and a[1][2] in ('tolist', 'copy', 'astype') :
+                    a = a[1][1]
+                if is_call(a, 'builtins.list', 'builtins.tuple') and a[2]:
+                    a = a[2][0]
+                if K.kind(a, f) in ('ROW', 'COL', 'ACC'):
+                    seen.add(s_)
+                    n += 1
+                    run.refute('R-LIVE', f, 'truthiness-of-entries', nd.lineno,
+                               "%s tests the truthiness of accessor entries %s: entries are vertex numbers, so vertex 0 (AA..A) counts "
+                               "as false and a missing arc (-1) as true" % (show(s_)[:60], show(a)[:40]),
+                               extracted={'predicate': show(s_)[:80]}, expected='-1:False 0:True +:True',
+                               inputs='a vertex whose only (remaining) successor is vertex 0')
     run.floor('R-LIVE', what or 'liveness predicates in %d functions' % len(fqs), n, floor)
     return n
 
